@@ -31,7 +31,7 @@ Definition leaf_eq (a b : gval) : bool :=
 Definition deep_equal (a b : gval) : bool :=
   match a, b with
   | GNil, GNil => true
-  | GAny x, GAny y => json_eq x y
+  | GAny x, GAny y => json_eqb x y   (* both are canonical (see decode_scalar) *)
   | _, _ => false
   end.
 
